@@ -43,7 +43,7 @@ var cv = rsm2.Std
 
 func TestMain(m *testing.M) {
 	R.Require("cert/sm2/alg_default", "cert/rsa/alg_default", "cert/ecdsa/alg_default", "cert/sm2/SM2-SHA1", "cert/sm2/SM2-SHA256", "csr/sm2/alg_default", "csr/ecdsa/alg_default", "csr/rsa/alg_default",
-		"crl/sm2", "revlist/sm2/alg_default", "revlist/sm2/SM2-SHA256", "serial_negative", "extra_ext_override", "mutant_tbs_or_sig", "other_key")
+		"crl/sm2", "revlist/sm2/alg_default", "revlist/sm2/SM2-SHA256", "serial_negative", "extra_ext_override", "mutant_tbs_or_sig", "other_key", "sig_reencoded")
 	hx.Main(m, R)
 }
 
@@ -569,6 +569,40 @@ func effectiveCN(n pkix.Name) string {
 }
 
 // mutate applies single-byte substitutions to der and checks the fail-closed relation.
+// sigReencodings: encodings of an ECDSA/SM2 signature value that carry the same r and s (or s + group order) but are not
+// the DER SEQUENCE of two minimal INTEGERs that was signed out.
+func sigReencodings(sig []byte, sm2curve bool) map[string][]byte {
+	out := map[string][]byte{}
+	if len(sig) < 8 || sig[0] != 0x30 || int(sig[1]) != len(sig)-2 || sig[1] >= 0x7b {
+		return out
+	}
+	body := append([]byte{}, sig[2:]...)
+	out["trailing byte"] = append(append([]byte{}, sig...), 0)
+	third := append(append([]byte{}, body...), 0x02, 0x01, 0x01)
+	out["third INTEGER inside the SEQUENCE"] = append([]byte{0x30, byte(len(third))}, third...)
+	out["long-form length"] = append([]byte{0x30, 0x81, byte(len(body))}, body...)
+	rl := int(body[1])
+	if body[2] < 0x80 && body[2] != 0 {
+		nb := append([]byte{0x02, byte(rl + 1), 0x00}, body[2:]...)
+		out["r with a redundant leading zero"] = append([]byte{0x30, byte(len(nb))}, nb...)
+	}
+	if sm2curve {
+		// s + n
+		so := 2 + rl
+		sl := int(body[so+1])
+		sv := new(big.Int).SetBytes(body[so+2 : so+2+sl])
+		sv.Add(sv, cv.N)
+		sb := sv.Bytes()
+		if sb[0] >= 0x80 {
+			sb = append([]byte{0}, sb...)
+		}
+		nb := append(append([]byte{}, body[:so]...), 0x02, byte(len(sb)))
+		nb = append(nb, sb...)
+		out["s replaced by s + n"] = append([]byte{0x30, byte(len(nb))}, nb...)
+	}
+	return out
+}
+
 func mutate(t *rapid.T, der []byte, n int, origTBS, origSig []byte, kindTag string, verify func(mut []byte) (tbs, sig []byte, parseErr, sigErr error)) {
 	for i := 0; i < n; i++ {
 		pos := rapid.IntRange(0, len(der)-1).Draw(t, "mpos")
@@ -678,6 +712,15 @@ func TestC09_Certificates(t *testing.T) {
 			t.Fatalf("%s: certificate ALSO verifies under an unrelated key", label)
 		}
 		R.Class("other_key")
+		// the same (r, s) in another encoding, or (r, s+n): a changed signature value must not verify
+		if s.kind != "rsa" {
+			for name, v := range sigReencodings(got.Signature, s.kind == "sm2") {
+				if err := iss.CheckSignature(got.SignatureAlgorithm, got.RawTBSCertificate, v); err == nil {
+					t.Fatalf("%s: the certificate still verifies after its signature value was re-encoded (%s): %x -> %x", label, name, got.Signature, v)
+				}
+			}
+			R.Class("sig_reencoded")
+		}
 		cl := []string{label}
 		if tpl.SerialNumber.Sign() < 0 {
 			cl = append(cl, "serial_negative")
